@@ -38,6 +38,9 @@ type C18Case struct {
 	// PreRead: a file outside the final root that the same parser merges
 	// BEFORE the root is narrowed (legitimate); afterwards it must be out of reach
 	PreRead string `json:"api_pre_read,omitempty"`
+	// Chdir: the process creates the parser, THEN changes its working
+	// directory to this path, then names root and input relative to it
+	Chdir string `json:"api_chdir_after_new,omitempty"`
 }
 
 var c18States = []string{"baseline", "rewrite", "corrupt", "delete", "directories", "dangling", "extra-files", "eacces", "empty", "blank", "huge", "eacces-inside"}
@@ -82,7 +85,7 @@ func genC18(r *gen.Rand) *C18Case {
 	extraInput := "" // a second command-line input, spelled relative to the root like the first
 	vectors := []string{"parent-dotdot", "parent-absolute", "parent-wildcard", "parent-list", "symlink-relative", "symlink-absolute",
 		"symlink-chain", "dir-symlink", "symlink-name-parent", "input-dotdot", "virtual-ext", "parent-dotdot-sub",
-		"symlink-hops", "symlink-hops", "symlink-via-dirlink", "setroot-sibling-prefix", "setroot-through-dirlink", "parent-wildcard-dir", "preread-then-narrow", "parent-wildcard-mixed", "parent-stdin-name", "dir-symlink-trailing-slash", "input-dotdot-through-dirlink"}
+		"symlink-hops", "symlink-hops", "symlink-via-dirlink", "setroot-sibling-prefix", "setroot-through-dirlink", "parent-wildcard-dir", "preread-then-narrow", "parent-wildcard-mixed", "parent-stdin-name", "dir-symlink-trailing-slash", "input-dotdot-through-dirlink", "chdir-after-new"}
 	c.Vector = gen.PickAny(r, vectors)
 	target := func(outside, inside string) string {
 		if c.Benign {
@@ -191,6 +194,18 @@ func genC18(r *gen.Rand) *C18Case {
 		}
 		c.Input = input2
 		c.NeedsOutside = !c.Benign
+	case "chdir-after-new":
+		// relative names mean what they mean when they are used, not when the
+		// parser was created
+		rootSpelling = 0
+		c.API = true
+		c.Chdir = abs(c18Root)
+		c.Roots = []string{"."}
+		c.Input = "in.yaml"
+		in["$parent"] = target("../outside/d", "base")
+		c.NeedsOutside = !c.Benign
+		// a file of the input's name where the process was when the parser was created
+		put("W/in.yaml", map[string]any{"secret": "S-old-cwd", "$parent": "outside/d"})
 	case "preread-then-narrow":
 		// a history on one parser: read a file while the root is still wide,
 		// narrow the root, then try to reach the same file again
@@ -542,6 +557,9 @@ func judgeC18(e *Env, c *C18Case, tag string, run int64) (*c18Obs, error) {
 			tool = "worker-stock"
 			req := &wire.Request{Run: run, Sched: wire.Sched{Mode: "Native"}}
 			var ops []wire.Op
+			if c.Chdir != "" {
+				ops = append(ops, wire.Op{Op: "New"}, wire.Op{Op: "Chdir", Path: resolveAbs(root, c.Chdir)})
+			}
 			for i, rt := range c.Roots {
 				if c.PreRead != "" && i == len(c.Roots)-1 {
 					// the legitimate read, just before the root is narrowed
@@ -629,6 +647,9 @@ func judgeC18(e *Env, c *C18Case, tag string, run int64) (*c18Obs, error) {
 				return true
 			}
 			if subOutside != "" && strings.HasPrefix(p, subOutside) && !strings.HasPrefix(p, subOutside+"sub/") {
+				return true
+			}
+			if c.Vector == "chdir-after-new" && strings.HasPrefix(p, filepath.Join(root, "W")+"/") && !strings.HasPrefix(p, filepath.Join(root, c18Root)+"/") {
 				return true
 			}
 			return false
